@@ -11,6 +11,12 @@ TRUST = ("Trusted base: go/types, go/ssa and the VTA/CHA call graphs of golang.o
 
 # id -> (technique, claim text, design_ref)
 CLAIMED = {
+ "C07": ("SSA error-discipline typestate (E-ERR) over every wire-read call site + dominance rules on PacketQueue.Bytes / tryParsePackage / LookupPackage",
+         "Decides, for every one of the >210 call sites into wire-reading functions (exhaustive over the current tree, floor-checked), that a short read can only surface as an error for which errors.Is(err, ErrNotEnoughBytes) holds, that PacketQueue.Bytes succeeds only when n bytes were copied, that the channel retries exactly on that error without reporting, and that each attempt parses into a fresh object with no global side effects. This is the per-site contract the property rests on; it does not decide panics (C10) or parsers that read too little.",
+         "DESIGN.md §3 C07"),
+ "C14": ("SSA error-flow and path enumeration over the transport readers (PacketHeader.ReadFrom, Packet.ReadFrom, Conn.ReadFrom, NextPackage)",
+         "Decides that the error path from the transport to the consumer is unbroken and that only completely received packets reach the parser: every transport read error is tested and propagated (never success), nil/EOF-like returns of Packet.ReadFrom need a complete body on every path, loops around transport reads are bounded by context tests, Conn.ReadFrom parses only after err == nil or EOF and reports everything else on Conn.errCh, which NextPackage selects on. Crash points, delivered prefixes and time bounds are not explored.",
+         "DESIGN.md §3 C14"),
  "C20": ("constant-table extraction (go/types) + SSA dominance + map-range order-independence rule",
          "Decides statically, for every entry of the sql2ase literal and every return of ASEIsolationLevelFromGo/ToGo/String, that the forward table is the property's table, that success needs ok && != Invalid, that no map range with an early exit can be triggered by more than one entry (order dependence), and that the reverse table inverts the forward one on supported non-default levels. Exhaustive over the finite tables, hence close to the full property; printed names are delegated to database/sql.",
          "DESIGN.md §3 C20"),
